@@ -20,28 +20,31 @@ CurvePoints == UNION {PointsAt(y) : y \in 0..(QQ - 1)}
 
 VARIABLES P1, z1, pts
 v == <<P1, z1, pts>>
-Init == pts = CurvePoints /\ P1 \in pts /\ z1 \in ZSET
-Next == UNCHANGED v
+(* two-stage fan-out: the initial states fix P1, the step picks z1, so that    *)
+(* all TLC workers share the cases                                            *)
+Init == pts = CurvePoints /\ P1 \in pts /\ z1 = 0
+Next == z1 = 0 /\ z1' \in ZSET /\ UNCHANGED <<P1, pts>>
 Spec == Init /\ [][Next]_v
+Ready == z1 # 0
 
 R1 == Scale(C, P1, z1)
 Projects(r, P) == ValidExt(C, r) /\ ToAffine(C, r) = P
 
-AffineLawComplete ==     \* denominators never vanish, the sum is on the curve, the law is a group law with inverses
+AffineLawComplete == Ready =>   \* denominators never vanish, the sum is on the curve, the law is a group law with inverses
   \A P2 \in pts :
     LET t == FMul(C, C.d, FMul(C, FMul(C, P1[1], P2[1]), FMul(C, P1[2], P2[2])))
     IN /\ FAdd(C, F1, t) # F0 /\ FSub(C, F1, t) # F0
        /\ AffAdd(C, P1, P2) \in pts
        /\ AffAdd(C, P1, P2) = AffAdd(C, P2, P1)
        /\ AffAdd(C, P1, EdId) = P1 /\ AffAdd(C, P1, AffNeg(C, P1)) = EdId
-AddUnifiedComplete ==
+AddUnifiedComplete == Ready =>
   \A P2 \in pts, z2 \in ZSET : Projects(AddExt3(C, R1, Scale(C, P2, z2)), AffAdd(C, P1, P2))
-DoubleCorrect == Projects(DblExt(C, R1), AffAdd(C, P1, P1))
-AddDedicatedCorrect ==
+DoubleCorrect == Ready => Projects(DblExt(C, R1), AffAdd(C, P1, P1))
+AddDedicatedCorrect == Ready =>
   \A P2 \in pts, z2 \in ZSET :
     ~Order124(C, AffAdd(C, P1, AffNeg(C, P2))) => Projects(AddExt4(C, R1, Scale(C, P2, z2)), AffAdd(C, P1, P2))
 (* the dedicated formula really has exceptional cases: it is NOT complete     *)
-DedicatedFailsSomewhere ==
+DedicatedFailsSomewhere == Ready =>
   \A P2 \in pts : Order124(C, AffAdd(C, P1, AffNeg(C, P2))) => ~Projects(AddExt4(C, R1, Scale(C, P2, 1)), AffAdd(C, P1, P2))
 
 (* ladders: for every point the slow ladder is n-fold addition for n < 8L;    *)
@@ -53,11 +56,11 @@ FastSideOK(P, n) ==
   ELSE /\ FastSideOK(P, n \div 2)
        /\ (n % 2 = 1) => ~Order124(C, AffAdd(C, AffMul(C, P, 2 * (n \div 2)), AffNeg(C, P)))
 LL == NToInt(C.L)
-SlowLadderCorrect == \A n \in 0..(8 * LL) : Projects(LadderSlow(C, R1, n), AffMul(C, P1, n))
+SlowLadderCorrect == Ready => \A n \in 0..(8 * LL) : Projects(LadderSlow(C, R1, n), AffMul(C, P1, n))
 FastLadderSafe ==
-  (AffMul(C, P1, LL) = EdId /\ P1 # EdId) =>
+  (Ready /\ AffMul(C, P1, LL) = EdId /\ P1 # EdId) =>
      \A n \in 0..(LL - 1) : FastSideOK(P1, n) /\ Projects(LadderFast(C, R1, n), AffMul(C, P1, n))
-AffMulIsNFold == \A n \in 0..(LL + 2) : AffMul(C, P1, n + 1) = AffAdd(C, AffMul(C, P1, n), P1)
+AffMulIsNFold == Ready => \A n \in 0..(LL + 2) : AffMul(C, P1, n + 1) = AffAdd(C, AffMul(C, P1, n), P1)
 
 ASSUME Cardinality(CurvePoints) = 8 * LL                               \* the curve has exactly 8L points
 ASSUME NExpMod(C.d, (QQ - 1) \div 2, QQ) = QQ - 1                      \* d is a non-square
